@@ -146,10 +146,24 @@ def check_lists(ck, cases):
 
 
 # ------------------------------------------------------------ warm-up, live vs reload
+SPELLINGS = ['repr', '%.6e', '%.3e', '%g', '%.10g', '%E', '%.8G']
+
+
+def spell(style, v):
+    """how the harness prints the value: (text, value the text denotes); only spellings that the data
+    file's six decimals keep exactly, otherwise Python's repr"""
+    if style != 'repr':
+        t = style % v
+        v2 = float(t)
+        if float('%f' % v2) == v2 and v2 > 0:
+            return t, v2
+    return repr(v), v
+
+
 def warmup_sessions(ck, n_scen, forced=None):
     """`forced`: scenarios (w, invocations, iterations, values, extra criteria) instead of random ones"""
     rng = ck.rng
-    ops, scen = [], []
+    ops, scen, styles = [], [], {}
     for (w, n_inv, its, vals, extra) in (forced or []):
         scen.append((w, n_inv, its, vals, extra))
         ops.append({'op': 'c15.warmup', 'w': w or 0,
@@ -165,6 +179,12 @@ def warmup_sessions(ck, n_scen, forced=None):
             vals = [[off + rng.randint(0, 640) / 64.0 for _ in range(its)] for _ in range(n_inv)]
         else:
             vals = [[round(rng.uniform(1, 500), rng.choice([0, 1, 3, 6])) for _ in range(its)] for _ in range(n_inv)]
+            if rng.random() < 0.2:
+                vals = [[v * 1000000.0 for v in inv] for inv in vals]      # magnitudes up to 1e9
+        # the harness may print its numbers in any spelling the adapter's format allows (1e+09, 2.5E+06, 1.5e-01, ...)
+        style = rng.choice(SPELLINGS)
+        styles[len(scen)] = style
+        vals = [[spell(style, v)[1] for v in inv] for inv in vals]
         scen.append((w, n_inv, its, vals, extra))
         ops.append({'op': 'c15.warmup', 'w': w or 0,
                     'invs': [[{'it': k + 1, 'total': lib.frac(v)} for k, v in enumerate(inv)] for inv in vals]})
@@ -181,11 +201,11 @@ def warmup_sessions(ck, n_scen, forced=None):
         conf = drive.write_config(wd, cfg)
         state = {'k': 0}
 
-        def script(rec, vals=vals, state=state, extra=extra):
+        def script(rec, vals=vals, state=state, extra=extra, style=styles.get(idx, 'repr')):
             k = state['k']
             state['k'] += 1
             crit = ['B: heap size: 4096kb\n', 'B gc: iterations=1 runtime: 250us\n', 'B: allocated: 12.5MB\n'][:extra]
-            out = ''.join(''.join(crit) + 'B: iterations=1 runtime: %sms\n' % repr(v) for v in vals[k])
+            out = ''.join(''.join(crit) + 'B: iterations=1 runtime: %sms\n' % spell(style, v)[0] for v in vals[k])
             return drive.Outcome(0, out)
         live_stats = {}
         reload_stats = {}
@@ -212,6 +232,7 @@ def warmup_sessions(ck, n_scen, forced=None):
         ck.count('warmup:%s' % w)
         ck.count('iterations:%s' % ('<=7' if its <= 7 else '18-60'))
         ck.count('extra-criteria:%d' % extra)
+        ck.count('spelling:%s' % styles.get(idx, 'repr'))
         ck.case(nontrivial_key=('w', w, n_inv, its, hash(str(vals))) if (w or 0) > 0 else None,
                 sample={'warmup': w, 'values': vals} if idx < 2 else None)
         if r1.crash or r2.crash or 's' not in live_stats or 's' not in reload_stats:
@@ -223,18 +244,20 @@ def warmup_sessions(ck, n_scen, forced=None):
         want = [Fraction(v) for inv in vals for v in inv[(w or 0):]]
         for (name, st, key) in (('live', live_stats['s'], 'live_stats'), ('reload', reload_stats['s'], 'reload_stats')):
             m = ans[key]
-            if st.num_samples != m['n'] or (m['n'] and abs(Fraction(st.mean) - lib.unfrac(m['mean'])) > 1e-6):
+            tol = max(1e-6, 4 * (len(want) + 2) * 2.3e-16 * max([abs(x) for x in want] or [0]))   # the stated rounding bound
+            if st.num_samples != m['n'] or (m['n'] and abs(Fraction(st.mean) - lib.unfrac(m['mean'])) > tol):
                 ck.disagree('c15.warmup: %s statistics vs model' % name, inp,
                             {'n': st.num_samples, 'mean': st.mean}, m,
                             ['RB.Stats.c15_warmup_live_eq_reload', 'RB.Stats.c15_live_eq_reload_stats'])
             # oracle on the implementation: warm-up excluded per invocation, all others counted
             if st.num_samples != len(want):
                 ck.oracle_fail('warmup_excluded_count_' + name, inp, {'reported': st.num_samples, 'expected': len(want)})
-            elif want and abs(Fraction(st.mean) - sum(want) / len(want)) > 1e-6:
+            elif want and abs(Fraction(st.mean) - sum(want) / len(want)) > tol:
                 ck.oracle_fail('warmup_excluded_mean_' + name, inp,
                                {'reported': st.mean, 'expected': float(sum(want) / len(want))})
         a, b = live_stats['s'], reload_stats['s']
-        if a.num_samples != b.num_samples or abs(a.mean - b.mean) > 1e-6 or abs(a.std_dev - b.std_dev) > 1e-5 \
+        scale = max(1.0, abs(a.mean) * 1e-9)
+        if a.num_samples != b.num_samples or abs(a.mean - b.mean) > 1e-6 * scale or abs(a.std_dev - b.std_dev) > 1e-5 * scale \
                 or abs(a.min - b.min) > 1e-6 or abs(a.max - b.max) > 1e-6:
             ck.oracle_fail('live_equals_reload', inp,
                            {'live': a.as_tuple(), 'reload': b.as_tuple()})
